@@ -221,9 +221,21 @@ Proof. intros HU HG; destruct s; try discriminate; cbn; rewrite HU; break_if; cb
 (* "modifications are accepted again" *)
 Lemma idle_accepts c s : inUse c = false -> args_ok c s = true -> fst (apply_setter c s) = Accepted.
 Proof.
-  intros HU HA; destruct s; cbn in *; rewrite ?HU, ?HA; cbn; auto.
-  - destruct cells; reflexivity.
+  intros HU HA; destruct s; cbn in *; rewrite ?HU; cbn.
+  - apply andb_prop in HA as [HA1 HA2]. rewrite HA1, HA2. cbn. destruct cells; reflexivity.
+  - rewrite HA. reflexivity.
+  - reflexivity.
   - apply Z.ltb_lt in HA. destruct (rh <=? 0) eqn:E; [apply Z.leb_le in E; lia|reflexivity].
+  - now rewrite HA.
+  - now rewrite HA.
+  - now rewrite HA.
+  - now rewrite HA.
+  - now rewrite HA.
+  - now rewrite HA.
+  - now rewrite HA.
+  - now rewrite HA.
+  - now rewrite HA.
+  - now rewrite HA.
 Qed.
 
 (* the size equalities of Circuit::check() (+ the polarity vector), as a proposition *)
@@ -261,14 +273,16 @@ Proof.
   - (* addNet *)
     destruct (Nat.eqb (length cells) (length xo) && Nat.eqb (length cells) (length yo)) eqn:E; cbn; auto.
     apply andb_prop in E as [E1 E2]. apply Nat.eqb_eq in E1, E2.
-    destruct (inUse c); cbn; auto. destruct cells as [|c0 cells]; cbn [snd]; auto.
+    destruct (inUse c); cbn; auto.
+    destruct (cells_in_range (length (cellW c)) cells); cbn; auto.
+    destruct cells as [|c0 cells]; cbn [snd]; auto.
     cbn [netLimits netWeights pinCells pinXOffs pinYOffs cellW cellH cellFixed cellObs cellPol cellX cellY cellO set_nets].
     rewrite !app_length, last_app_single, hd_app_nonempty by tauto.
     cbn [length] in *. lia.
   - (* setNets *)
     destruct (inUse c); cbn; auto.
-    destruct (set_nets_asserts limits cells xo yo weights) eqn:E; cbn; auto.
-    unfold set_nets_asserts in E. destruct limits as [|l0 lr]; [discriminate|].
+    destruct (set_nets_ok (length (cellW c)) limits cells xo yo weights) eqn:E; cbn; auto.
+    unfold set_nets_ok in E. destruct limits as [|l0 lr]; [discriminate|].
     repeat (apply andb_prop in E as [E ?]).
     repeat match goal with X : (_ =? _) = true |- _ => apply Z.eqb_eq in X end.
     rewrite resize_weights_length. cbn [length hd] in *.
@@ -396,9 +410,9 @@ Section CallProofs.
     Lemma stage_legalize_P o st : P st -> P (fst (stage_legalize A runop o cbo st)).
     Proof.
       intros HP; unfold stage_legalize.
+      destruct (negb (o_params_ok o)); cbn [fst]; auto.
       assert (H1 : P (with_c A st (set_netUpd (set_sizeUpd (cs_c st) false) false))) by (apply P_withc; auto).
       set (st1 := with_c A st (set_netUpd (set_sizeUpd (cs_c st) false) false)) in *.
-      destruct (negb (o_params_ok o)); cbn [fst]; auto.
       destruct (o_leg o (cs_c st1)) as [l|]; cbn [fst]; auto.
       pose proof (R_leg l (cs_c st1)) as HR.
       destruct (export_leg l (cs_c st1)) as [c2 threw]; cbn [fst] in HR.
@@ -532,13 +546,24 @@ Section CallProofs.
   Lemma soft_not_hard e : soft e -> hard e -> False.
   Proof. intros [[k ->]| ->] [H|H]; discriminate. Qed.
 
+  (* what a failed legalization leaves behind: nothing when the parameters were rejected, the two "update seen" flags
+     reset when the legalizer itself failed *)
+  Definition after_hard (e : exn) (c : acirc) : acirc :=
+    match e with EParams => c | _ => set_netUpd (set_sizeUpd c false) false end.
+
+  Lemma with_c_id (st : cstate) : with_c A st (cs_c st) = st.
+  Proof. destruct st; reflexivity. Qed.
+
   Lemma stage_legalize_hard o cbo st e :
     snd (stage_legalize A runop o cbo st) = Some e -> hard e ->
-    fst (stage_legalize A runop o cbo st) = with_c A st (set_netUpd (set_sizeUpd (cs_c st) false) false).
+    fst (stage_legalize A runop o cbo st) = with_c A st (after_hard e (cs_c st)).
   Proof.
-    unfold stage_legalize. set (st1 := with_c A st _).
-    destruct (negb (o_params_ok o)); cbn [fst snd]; auto.
-    destruct (o_leg o (cs_c st1)) as [l|]; cbn [fst snd]; auto.
+    unfold stage_legalize.
+    destruct (negb (o_params_ok o)); cbn [fst snd].
+    { intros H _; inversion H; subst. cbn. now rewrite with_c_id. }
+    set (st1 := with_c A st _).
+    destruct (o_leg o (cs_c st1)) as [l|]; cbn [fst snd].
+    2: { intros H _; inversion H; subst. reflexivity. }
     destruct (export_leg l (cs_c st1)) as [c2 threw].
     destruct threw; cbn [fst snd].
     - intros H [Hh|Hh]; inversion H; subst; discriminate.
@@ -548,7 +573,7 @@ Section CallProofs.
 
   Lemma stage_detailed_hard o cbo st e :
     snd (stage_detailed A runop o cbo st) = Some e -> hard e ->
-    fst (stage_detailed A runop o cbo st) = with_c A st (set_netUpd (set_sizeUpd (cs_c st) false) false).
+    fst (stage_detailed A runop o cbo st) = with_c A st (after_hard e (cs_c st)).
   Proof.
     unfold stage_detailed.
     pose proof (stage_legalize_hard o cbo st) as HL.
@@ -563,20 +588,20 @@ Section CallProofs.
           intros H [Hh|Hh]; inversion H; subst; discriminate.
   Qed.
 
-  (* a legalization that failed (or whose parameters were rejected) has left everything as it was; only the two
-     "update seen" flags were reset; no callback ran *)
+  (* a legalization that failed has left everything as it was (rejected parameters: the whole circuit; infeasible:
+     only the two "update seen" flags were reset); no callback ran *)
   Theorem failed_legalize_unchanged s o cb c e :
     s = StLegalize \/ s = StDetailed ->
     snd (call A runop s o cb c) = Some e -> hard e ->
-    fst (call A runop s o cb c) = (set_netUpd (set_sizeUpd c false) false, []).
+    fst (call A runop s o cb c) = (after_hard e c, []).
   Proof.
     intros Hs. unfold call.
     set (st0 := {| cs_c := set_inUse c true; cs_n := 0; cs_log := [] |}).
     assert (HH : snd (run_stage A runop s o cb st0) = Some e -> hard e ->
-                 fst (run_stage A runop s o cb st0) = with_c A st0 (set_netUpd (set_sizeUpd (cs_c st0) false) false)).
+                 fst (run_stage A runop s o cb st0) = with_c A st0 (after_hard e (cs_c st0))).
     { destruct Hs as [-> | ->]; cbn [run_stage]; [apply stage_legalize_hard|apply stage_detailed_hard]. }
     destruct (run_stage A runop s o cb st0) as [st e']. cbn [fst snd] in *.
-    intros H1 H2. rewrite (HH H1 H2). subst st0. destruct c; reflexivity.
+    intros H1 H2. rewrite (HH H1 H2). subst st0. destruct c, e; reflexivity.
   Qed.
 
   (* ---- C03 through the call: a callback that issues no operation *)
@@ -719,9 +744,9 @@ Section Erase.
     simr (stage_legalize A runop o (option_map erase cbo) st) (stage_legalize A runop o cbo st').
   Proof.
     intros HS HU. unfold stage_legalize. pose proof HS as [Hc Hn]. rewrite <- Hc.
+    destruct (negb (o_params_ok o)); [repeat split; auto|].
     set (c1 := set_netUpd (set_sizeUpd (cs_c st) false) false).
     assert (HU1 : inUse c1 = true) by exact HU.
-    destruct (negb (o_params_ok o)); [repeat split; auto|].
     cbn [cs_c with_c].
     destruct (o_leg o c1) as [l|]; [|repeat split; auto].
     pose proof (export_leg_loop_inuse (seq 0 (nb_cells c1)) l c1) as HL. fold (export_leg l c1) in HL.
@@ -840,7 +865,7 @@ Qed.
 
 Lemma failed_legalize_unchanged1 s o cb c e :
   s = StLegalize \/ s = StDetailed -> snd (call1 s o cb c) = Some e -> e = ELegalizer \/ e = EParams ->
-  fst (call1 s o cb c) = (set_netUpd (set_sizeUpd c false) false, []).
+  fst (call1 s o cb c) = (after_hard e c, []).
 Proof. apply failed_legalize_unchanged. Qed.
 
 (* every state reachable from a constructor by setters and placement calls (any oracle, any callback issuing setters
